@@ -253,6 +253,7 @@ func NewSugarDB(options ...func(sugarDB *SugarDB)) (*SugarDB, error) {
 			GetState: func() map[int]map[string]internal.KeyData {
 				state := make(map[int]map[string]internal.KeyData)
 				for database, store := range sugarDB.getState() {
+					state[database] = make(map[string]internal.KeyData)
 					for k, v := range store {
 						if data, ok := v.(internal.KeyData); ok {
 							state[database][k] = data
